@@ -446,7 +446,7 @@ LAWS = {"engine": "laws", "build": "all", "args": ([], []), "timeout": (120, 120
 PLANS = {
     "C01": [M(["general", "blocking", "notime"], 11, 100), S(["traffic", "backpressure", "refs"], 18000, 150000, mode="diff"), S(["timeouts", "backpressure"], 12000, 100000, seed_off=2000), S(["traffic", "backpressure", "kill"], 9000, 60000, build="none", seed_off=1000)],
     "C02": [M(["general", "blocking"], 6, 60), S(["traffic", "backpressure", "idle"], 18000, 150000, mode="diff"), S(["traffic", "backpressure"], 9000, 60000, build="none", seed_off=1000)],
-    "C03": [M(["tightrace"], 12, 150, fp_quick=True), M(["deathrace", "general", "blocking", "notime"], 11, 100), S(["traffic", "lifecycle", "kill", "faults", "timeouts"], 12000, 100000, mode="diff"), S(["kill", "lifecycle", "backpressure"], 9000, 60000, build="none", seed_off=1000)],
+    "C03": [M(["tightrace"], 12, 150, fp_quick=True), M(["deathrace", "general", "blocking", "notime", "abort"], 13, 110), S(["traffic", "lifecycle", "kill", "faults", "timeouts"], 12000, 100000, mode="diff"), S(["kill", "lifecycle", "backpressure"], 9000, 60000, build="none", seed_off=1000)],
     "C04": [S(["lifecycle", "kill", "faults"], 18000, 150000), S(["lifecycle", "kill"], 9000, 60000, build="none", seed_off=1000)],
     "C05": [LAWS, S(["lifecycle", "faults", "kill"], 18000, 150000), S(["lifecycle", "faults"], 9000, 60000, build="none", seed_off=1000)],
     "C06": [M(["general", "deathrace"], 6, 60), S(["kill", "backpressure", "lifecycle"], 18000, 150000, mode="diff"), S(["kill", "refs"], 12000, 60000, build="none", seed_off=1000)],
@@ -454,7 +454,7 @@ PLANS = {
     "C08": [S(["idle", "kill", "traffic"], 18000, 150000), S(["idle", "kill"], 9000, 60000, build="none", seed_off=1000)],
     "C09": [P("default"), P("set", 5), P("set", 1), P("set", 2), P("set", 7), P("set", 11), P("set", 13), P("set", 17), P("set", 19), P("set", 23), P("set", 29), P("spawn-then-set", 3), P("zero"), S(["backpressure", "traffic"], 24000, 200000), S(["backpressure"], 12000, 80000, build="none", seed_off=1000)],
     "C10": [LAWS, M(["blocking"], 8, 60), M(["starve"], 3, 30, seed_off=3), S(["timeouts", "kill"], 24000, 200000, mode="diff"), S(["timeouts"], 12000, 80000, build="none", seed_off=1000)],
-    "C11": [MIRI, M(["spawnstorm"], 4, 40), M(["readers"], 4, 40, seed_off=9), S(["refs", "lifecycle", "traffic"], 18000, 150000, mode="diff"), S(["refs", "kill"], 9000, 60000, build="none", seed_off=1000)],
+    "C11": [MIRI, M(["spawnstorm", "abort"], 7, 60), M(["readers"], 4, 40, seed_off=9), S(["refs", "lifecycle", "traffic"], 18000, 150000, mode="diff"), S(["refs", "kill"], 9000, 60000, build="none", seed_off=1000)],
     "C12": [MIRI, S(["faults"], 30000, 250000), S(["deadlock"], 15000, 100000), S(["faults"], 12000, 80000, build="none", seed_off=1000)],
     "C13": [MIRI, M(["general", "blocking", "deathrace"], 9, 90), S(["traffic", "timeouts", "kill", "faults", "lifecycle"], 12000, 100000, mode="diff"), S(["timeouts", "kill"], 9000, 60000, build="none", seed_off=1000)],
     "C14": [M(["mutualask"], 4, 40), S(["deadlock"], 48000, 400000, perts=(2, 4)), S(["deadlock"], 12000, 100000, mode="erased", seed_off=300)],
